@@ -5,6 +5,7 @@ Line-protocol driver for C09: runs the StateDB model on the op lines the Go harn
   univ <accs> <keys> <hashes> <vals>      comma lists ("-" = empty): what `dump` enumerates -> ok
   ab|sb|bal a n   non a n   code a hex   ss a k v   sui a   ca a   log p   pre h hex   ar g   sr g
   vc|vu a role status token stake misc   vr a   aw operator nonce amount   rw i,j,..   dg dlg val amt
+  la a n  (UpdateLastActive the way staking does it)
   prep thash txIndex   snap   rev id   fin 0|1   root 0|1                               -> ok | ok <id> | crash
   reopen                                  Commit(true) + state.New at the committed roots (Model.reopen) -> ok
   dump                                    canonical text of the live state              -> <text>
@@ -91,11 +92,16 @@ def showObj (u : Univ) (a : Nat) (o : Option Obj) : String :=
     if o.deleted then s!"{a}:D,{b01 o.suicided},{o.nonce},{o.balance}"
     else s!"{a}:E,{b01 o.suicided},{o.nonce},{o.balance},{if o.code.isEmpty then "-" else o.code},{o.dlgBalance},[{join "+" (o.dlgs.map toString)}],S[{showStore u o.storage}],C[{showStore u o.committed}]"
 
+/-- `Ext` by value: version, raw `Data` bytes (hexutil.Uint64ToBytes: compact big-endian, 0 ↦ 00), `LastActive()` -/
+def showExt : Option Nat → String
+  | none => "x0.-.0"
+  | some n => s!"x1.{if n = 0 then "00" else hexOfList (bytesOfNatBE n)}.{n}"
+
 def showVal (a : Nat) (v : Option Val) : String :=
   match v with
   | none => s!"{a}:-"
   | some v =>
-    s!"{a}:{v.role},{v.status},{v.token},{v.stake},{v.selfToken},{v.selfStake},{v.misc},{b01 v.deleted},[{join ";" (v.delegs.map fun d => s!"{d.delegator}.{d.stake}.{d.token}")}]"
+    s!"{a}:{v.role},{v.status},{v.token},{v.stake},{v.selfToken},{v.selfStake},{v.misc},{showExt v.ext},{b01 v.deleted},[{join ";" (v.delegs.map fun d => s!"{d.delegator}.{d.stake}.{d.token}")}]"
 
 def showKS (k : KS) : String := s!"{k.onStake},{k.onToken},{k.onCount},{k.offStake},{k.offToken},{k.offCount}"
 def showStat (s : Stat) : String := join "/" ((List.range 6).map fun b => showKS (s b))
@@ -165,6 +171,19 @@ def stepLine (ds : DS) (line : String) : DS × String :=
   | ["gstat"] => (ds, s!"{ds.guardFail} {ds.opsSeen}")
   | ["dump"] => (ds, dump ds)
   | ["tdump"] => (ds, tdump ds)
+  | ["la", a, n] =>
+    -- PartialCopy → UpdateLastActive(n) → UpdateValidator(new, old): only `Ext` changes
+    match nat? a, nat? n with
+    | some a, some n =>
+      match ds.s.v.get a with
+      | none => (ds, "ok")
+      | some old =>
+        let op : Op := .val (.update a { old with ext := some n })
+        let ds := { ds with opsSeen := ds.opsSeen + 1, guardFail := ds.guardFail + (if opOKB ds.s op then 0 else 1) }
+        match step ds.s op with
+        | some s' => ({ ds with s := normalize ds.u s' }, "ok")
+        | none => (ds, "crash")
+    | _, _ => (ds, "bad-op")
   | ["vu", a, r, st, t, sk, m] =>
     -- UpdateValidator(new, old): new = copy of the current validator with these fields replaced
     match nat? a, nat? r, nat? st, nat? t, nat? sk, nat? m with
